@@ -39,3 +39,4 @@ func Note(s string)                {}
 func Yield(tag string)             {}
 func Quiesce()                     {}
 func Threads()                     {}
+func SetClock(sec, nsec, stepNs int64) {}
